@@ -594,7 +594,7 @@ def tasks(tier):
     return [task(MOD, 'ob_patterns', ('C12',), label='py/lexer/patterns', cost=4),
             task(MOD, 'ob_greedy_is_longest', ('C12',), label='py/lexer/greedy-bounded', cost=8, maxlen=3 if tier == 'quick' else 5),
             task(MOD, 'ob_tables', ('C12', 'C18'), label='py/lexer/tables'),
-            task(MOD, 'ob_escapes', ('C12',), label='py/lexer/escapes', cost=20),
+            task(MOD, 'ob_escapes', ('C12', 'C13'), label='py/lexer/escapes', cost=20),          # C13: the bytes of a constant start at the lexer
             task(MOD, 'ob_read_int', ('C12',), label='py/lexer/read_int'),
             task(MOD, 'ob_scanner', ('C12',), label='py/lexer/scanner', cost=4),
             task(MOD, 'ob_readers_raise_only_lexer_errors', ('C10',), label='py/lexer/totality', cost=4),
